@@ -15,6 +15,7 @@
 #include "contain.hpp"
 
 #include <cstring>
+#include <functional>
 #include <limits>
 #include <random>
 #include <type_traits>
@@ -506,118 +507,119 @@ template <class T, std::size_t Bits, class E> void canon(E e, int n)
     vh::emit(ev);
 }
 
-struct DTask {
-    int kind;          // 0 uid grid pair, 1 uid big ranges/defaults, 2 per-engine-seed real/bernoulli/canonical
-    long a = 0, b = 0;
-    std::string eng;
-    json seed;
-};
+using Fn = std::function<void()>;
 
-std::vector<DTask> dist_tasks(std::vector<json> const& gen)
+template <class E> E engine_from(json const& seedl) { return E {from_limbs<typename E::result_type>(seedl)}; }
+
+// the engine right after construction: its next outputs are the extreme values the seeds were chosen for
+template <class E> void dist_engine_tasks(std::vector<Fn>& ts, json const& seedl)
 {
-    std::vector<DTask> ts;
-    for (auto const& g : gen) {
-        if (g["m"] == "uid") { ts.push_back({0, g["a"], g["b"], "", json()}); }
+    E const e = engine_from<E>(seedl);
+    ts.push_back([=] { canon<float, 24>(e, 8); });
+    ts.push_back([=] { canon<double, 53>(e, 8); });
+    ts.push_back([=] { canon<float, 10>(e, 8); });
+    ts.push_back([=] { canon<double, 64>(e, 8); });
+    ts.push_back([=] { canon<float, 64>(e, 8); });
+    ts.push_back([=] { urd<float>(e, 0.0, 1.0, 8); });
+    ts.push_back([=] { urd<double>(e, 0.0, 1.0, 8); });
+    ts.push_back([=] { urd<float>(e, -1.0, 1.0, 8); });
+    ts.push_back([=] { urd<double>(e, 0.0, 100.0, 8); });
+    ts.push_back([=] { urd<float>(e, 5.0, 6.0, 8); });
+    ts.push_back([=] { urd<double>(e, -3.5, -1.25, 8); });
+    ts.push_back([=] { bern(e, 0.0, 0, 64); });
+    ts.push_back([=] { bern(e, 1.0, 2, 64); });
+    ts.push_back([=] { bern(e, 0.5, 1, 64); });
+    ts.push_back([=] { uid_draw<int>(e, 0, 9, 8, false); });
+    ts.push_back([=] { uid_draw<short>(e, -3, 3, 8, false); });
+    ts.push_back([=] { uid_draw<unsigned short>(e, 0, 65535, 8, false); });
+}
+
+bool all_zero(json const& seedl)
+{
+    for (auto const& l : seedl) {
+        if (l.get<int>() != 0) { return false; }
     }
-    ts.push_back({1, 0, 0, "", json()});
+    return true;
+}
+
+// every call is its own task: a call that dies takes nothing else with it
+std::vector<Fn> dist_tasks(std::vector<json> const& gen)
+{
+    std::vector<Fn> ts;
     for (auto const& g : gen) {
-        if (g["m"] == "xs16" || g["m"] == "uid") { continue; }
-        ts.push_back({2, 0, 0, g["m"], g["seed"]});
+        if (g["m"] != "uid") { continue; }
+        long const a = g["a"], b = g["b"];
+        ts.push_back([=] { uid_params<int>(a, b); });
+        ts.push_back([=] { uid_params<short>(a, b); });
+        if (a >= 0) { ts.push_back([=] { uid_params<unsigned short>(a, b); }); }
+        // every engine draws from the small range; two of them also do the long coverage run
+        xs32_t e1 {(uint32_t)(1000003u * (unsigned)(a + 7) + (unsigned)b)};
+        xs64_t e2 {(uint64_t)(0x9E3779B97F4A7C15ull * (unsigned)(b + 3) + (unsigned)(a + 5))};
+        xop_t e3 {(uint32_t)(77u + (unsigned)(a + 2) * 131u + (unsigned)b)};
+        xopp_t e4 {(uint32_t)(12345u + (unsigned)(a + 2) * 17u + (unsigned)b * 3u)};
+        xoss_t e5 {(uint32_t)(999u + (unsigned)(a + 2) * 5u + (unsigned)b * 7u)};
+        e3.discard(8), e4.discard(8), e5.discard(8);      // let the xoshiro state fill up
+        ts.push_back([=] { uid_draw<int>(e1, a, b, 24, false); });
+        ts.push_back([=] { uid_draw<short>(e2, a, b, 24, false); });
+        ts.push_back([=] { uid_draw<int>(e3, a, b, 24, false); });
+        ts.push_back([=] { uid_draw<short>(e4, a, b, 24, false); });
+        ts.push_back([=] { uid_draw<int>(e5, a, b, 24, false); });
+        if (a >= 0) { ts.push_back([=] { uid_draw<unsigned short>(e1, a, b, 24, false); }); }
+        ts.push_back([=] { uid_draw<int>(e4, a, b, 4000, true); });
+        ts.push_back([=] { uid_draw<short>(e1, a, b, 4000, true); });
+    }
+    for (long a : {0L, 5L, -7L}) {
+        ts.push_back([=] { uid_defaults<int>(a); });
+        ts.push_back([=] { uid_defaults<short>(a); });
+        if (a >= 0) { ts.push_back([=] { uid_defaults<unsigned short>(a); }); }
+    }
+    xs64_t e {vh::env_seed() * 2654435761ull + 1};
+    xopp_t e4 {(uint32_t)(vh::env_seed() + 42)};
+    e4.discard(16);
+    xs16_t small {(uint16_t)(vh::env_seed() + 99)};
+    // wide ranges: the whole type, half open ends, ranges wider than the engine's (16-bit engine)
+    long const imin = std::numeric_limits<int>::min(), imax = std::numeric_limits<int>::max();
+    ts.push_back([=] { uid_draw<int>(e, 0, imax, 200, false); });
+    ts.push_back([=] { uid_draw<int>(e4, imin, imax, 200, false); });
+    ts.push_back([=] { uid_draw<int>(e4, imin, -1, 200, false); });
+    ts.push_back([=] { uid_draw<int>(e, -1000000000, 1000000000, 200, false); });
+    ts.push_back([=] { uid_draw<int>(e4, 5, 100, 200, false); });
+    ts.push_back([=] { uid_draw<short>(e, -32768, 32767, 200, false); });
+    ts.push_back([=] { uid_draw<short>(e4, 5, 100, 200, false); });
+    ts.push_back([=] { uid_draw<unsigned short>(e, 0, 65535, 200, false); });
+    ts.push_back([=] { uid_draw<unsigned short>(e4, 65535, 65535, 50, false); });
+    ts.push_back([=] { uid_draw<int>(small, 0, 1000000, 200, false); });
+    ts.push_back([=] { uid_draw<int>(small, 0, 9, 200, false); });
+    ts.push_back([=] { uid_draw<int>(small, 0, 9, 4000, true); });
+    ts.push_back([=] { uid_draw<int>(e4, 0, 63, 20000, true); });
+    ts.push_back([=] { bern(e, 0.25, 1, 4000); });
+    ts.push_back([=] { bern(e4, 0.5, 1, 4000); });
+    ts.push_back([=] { bern(e4, 0.0, 0, 4000); });
+    ts.push_back([=] { bern(e, 1.0, 2, 4000); });
+    ts.push_back([=] { bern(small, 1.0, 2, 4000); });
+    ts.push_back([=] { urd<float>(e, 0.0, 1.0, 300); });
+    ts.push_back([=] { urd<double>(e4, 0.0, 1.0, 300); });
+    ts.push_back([=] { urd<float>(e4, 0.0, 100.0, 300); });
+    ts.push_back([=] { urd<double>(e, -8.0, 8.0, 300); });
+    ts.push_back([=] { urd<float>(small, 0.0, 1.0, 300); });
+    ts.push_back([=] { canon<float, 24>(e, 300); });
+    ts.push_back([=] { canon<double, 53>(e4, 300); });
+    ts.push_back([=] { canon<double, 53>(small, 300); });
+    ts.push_back([=] { canon<float, 24>(small, 300); });
+    // engines positioned at the exported seeds.  The all-zero state is outside the domain of both generator families
+    // ("the state must not be everywhere zero"): such an engine returns 0 forever and is not a uniform bit source.
+    for (auto const& g : gen) {
+        if (g["m"] == "xs16" || g["m"] == "uid" || all_zero(g["seed"])) { continue; }
+        with_engine(g["m"], [&](auto proto) { dist_engine_tasks<decltype(proto)>(ts, g["seed"]); });
     }
     return ts;
 }
 
-template <class E> E engine_from(json const& seedl) { return E {from_limbs<typename E::result_type>(seedl)}; }
-
-template <class E> void dist_engine_task(json const& seedl)
-{
-    E const e = engine_from<E>(seedl);
-    // the engine right after construction: its next outputs are the extreme values the seeds were chosen for
-    canon<float, 24>(e, 8);
-    canon<double, 53>(e, 8);
-    canon<float, 10>(e, 8);
-    canon<double, 64>(e, 8);
-    canon<float, 64>(e, 8);
-    urd<float>(e, 0.0, 1.0, 8);
-    urd<double>(e, 0.0, 1.0, 8);
-    urd<float>(e, -1.0, 1.0, 8);
-    urd<double>(e, 0.0, 100.0, 8);
-    urd<float>(e, 5.0, 6.0, 8);
-    urd<double>(e, -3.5, -1.25, 8);
-    bern(e, 0.0, 0, 64);
-    bern(e, 1.0, 2, 64);
-    bern(e, 0.5, 1, 64);
-    uid_draw<int>(e, 0, 9, 8, false);
-    uid_draw<short>(e, -3, 3, 8, false);
-    uid_draw<unsigned short>(e, 0, 65535, 8, false);
-}
-
-int run_dists(std::vector<DTask> const& ts, long start)
+int run_dists(std::vector<Fn> const& ts, long start)
 {
     for (long i = start; i < (long)ts.size(); ++i) {
-        vhc::begin_script(i, 60);
-        DTask const& t = ts[(size_t)i];
-        if (t.kind == 0) {
-            uid_params<int>(t.a, t.b);
-            uid_params<short>(t.a, t.b);
-            if (t.a >= 0) { uid_params<unsigned short>(t.a, t.b); }
-            // every engine draws from the small range; one engine also does the long coverage run
-            xs32_t e1 {(uint32_t)(1000003u * (unsigned)(t.a + 7) + (unsigned)t.b)};
-            xs64_t e2 {(uint64_t)(0x9E3779B97F4A7C15ull * (unsigned)(t.b + 3) + (unsigned)(t.a + 5))};
-            xop_t e3 {(uint32_t)(77u + (unsigned)(t.a + 2) * 131u + (unsigned)t.b)};
-            xopp_t e4 {(uint32_t)(12345u + (unsigned)(t.a + 2) * 17u + (unsigned)t.b * 3u)};
-            xoss_t e5 {(uint32_t)(999u + (unsigned)(t.a + 2) * 5u + (unsigned)t.b * 7u)};
-            e3.discard(8), e4.discard(8), e5.discard(8);      // let the xoshiro state fill up
-            uid_draw<int>(e1, t.a, t.b, 24, false);
-            uid_draw<short>(e2, t.a, t.b, 24, false);
-            uid_draw<int>(e3, t.a, t.b, 24, false);
-            uid_draw<short>(e4, t.a, t.b, 24, false);
-            uid_draw<int>(e5, t.a, t.b, 24, false);
-            if (t.a >= 0) { uid_draw<unsigned short>(e1, t.a, t.b, 24, false); }
-            uid_draw<int>(e4, t.a, t.b, 4000, true);
-            uid_draw<short>(e1, t.a, t.b, 4000, true);
-        } else if (t.kind == 1) {
-            for (long a : {0L, 5L, -7L}) {
-                uid_defaults<int>(a);
-                uid_defaults<short>(a);
-                if (a >= 0) { uid_defaults<unsigned short>(a); }
-            }
-            xs64_t e {vh::env_seed() * 2654435761ull + 1};
-            xopp_t e4 {(uint32_t)(vh::env_seed() + 42)};
-            e4.discard(16);
-            // wide ranges: the whole type, half open ends, ranges wider than the engine's (16-bit engine)
-            long const imin = std::numeric_limits<int>::min(), imax = std::numeric_limits<int>::max();
-            uid_draw<int>(e, 0, imax, 200, false);
-            uid_draw<int>(e4, imin, imax, 200, false);
-            uid_draw<int>(e4, imin, -1, 200, false);
-            uid_draw<int>(e, -1000000000, 1000000000, 200, false);
-            uid_draw<int>(e4, 5, 100, 200, false);
-            uid_draw<short>(e, -32768, 32767, 200, false);
-            uid_draw<short>(e4, 5, 100, 200, false);
-            uid_draw<unsigned short>(e, 0, 65535, 200, false);
-            uid_draw<unsigned short>(e4, 65535, 65535, 50, false);
-            xs16_t small {(uint16_t)(vh::env_seed() + 99)};
-            uid_draw<int>(small, 0, 1000000, 200, false);
-            uid_draw<int>(small, 0, 9, 200, false);
-            uid_draw<int>(small, 0, 9, 4000, true);
-            uid_draw<int>(e4, 0, 63, 20000, true);
-            bern(e, 0.25, 1, 4000);
-            bern(e4, 0.5, 1, 4000);
-            bern(e4, 0.0, 0, 4000);
-            bern(e, 1.0, 2, 4000);
-            bern(small, 1.0, 2, 4000);
-            urd<float>(e, 0.0, 1.0, 300);
-            urd<double>(e4, 0.0, 1.0, 300);
-            urd<float>(e4, 0.0, 100.0, 300);
-            urd<double>(e, -8.0, 8.0, 300);
-            urd<float>(small, 0.0, 1.0, 300);
-            canon<float, 24>(e, 300);
-            canon<double, 53>(e4, 300);
-            canon<double, 53>(small, 300);
-            canon<float, 24>(small, 300);
-        } else {
-            with_engine(t.eng, [&](auto proto) { dist_engine_task<decltype(proto)>(t.seed); });
-        }
+        vhc::begin_script(i, 20);
+        ts[(size_t)i]();
     }
     return 0;
 }
